@@ -10,7 +10,8 @@ Inductive case :=
 | CStart  (cs : list comp) (ev : list event) (r : start_result)
 | CClose  (cs : list comp) (ev : list event) (errs : list nat)
 | CLookupName (chain : list (list comp)) (name : N) (res : option (nat * nat))
-| CLookupKind (chain : list (list comp)) (kind : N) (res : option (nat * nat)).
+| CLookupKind (chain : list (list comp)) (kind : N) (res : option (nat * nat))
+| CLookupSeq (depth : nat) (ops : list lop) (res : list (option (nat * nat))).
 
 Definition model_ok (c : case) : bool :=
   match c with
@@ -20,6 +21,7 @@ Definition model_ok (c : case) : bool :=
       let '(ev', errs') := close cs in list_eqb event_eqb ev' ev && list_eqb Nat.eqb errs' errs
   | CLookupName chain n res => opt_pair_eqb (lookup (by_name n) chain 0) res
   | CLookupKind chain k res => opt_pair_eqb (lookup (by_kind k) chain 0) res
+  | CLookupSeq d ops res => opt_list_eqb (run_lops (repeat [] d) ops) res
   end.
 
 Definition spec_ok (c : case) : bool :=
@@ -28,6 +30,7 @@ Definition spec_ok (c : case) : bool :=
   | CClose cs ev errs => spec_C20_close cs (ev, errs)
   | CLookupName chain n res => spec_C20_lookup (by_name n) chain res
   | CLookupKind chain k res => spec_C20_lookup (by_kind k) chain res
+  | CLookupSeq d ops res => spec_C20_lops d ops res
   end.
 
 Fixpoint check_from (i : N) (l : list case) : list (N * N) :=
